@@ -545,6 +545,27 @@ public:
             default: prefix = vf::gen_fresh_key(c_, kopt_);
         }
         if (prefix.size() > 40) { prefix.resize(40); }
+        if (vf::g_decoder >= 2 && c_.chance(1, 4)) {
+            // length family: prefix + pad * k for k = 0..K (keys that differ only in length; with pad 0x00 all of one 8-byte group
+            // share the slice 0 and differ in the length byte alone; k = 8 is the full slice, k > 8 a link), followed by enough
+            // ordinary keys to split the border right behind / inside the family
+            static const char pads[] = {'\0', '\0', '\xff', 'a'};
+            const char pad = pads[c_.range(0, 3)];
+            const unsigned top = 8 + c_.range(0, 9);
+            std::vector<std::string> ks;
+            for (unsigned k = 0; k <= top; ++k) { ks.push_back(prefix + std::string(k, pad)); }
+            const unsigned extra = 6 + c_.range(0, 40);
+            const unsigned stride = 1 + c_.range(0, 6);
+            for (unsigned i = 0; i < extra; ++i) {
+                std::string k = prefix;
+                k.push_back(static_cast<char>(1 + ((i * stride) >> 8U)));
+                k.push_back(static_cast<char>((i * stride) & 0xffU));
+                ks.push_back(k);
+            }
+            classes.insert("bulk_length_family");
+            apply_order(ks);
+            return ks;
+        }
         unsigned count = 16 + c_.range(0, static_cast<std::uint32_t>(pf_.bulk_max > 16 ? pf_.bulk_max - 16 : 0));
         unsigned width = c_.range(1, 3);
         unsigned stride = 1 + c_.range(0, 6);
